@@ -108,6 +108,7 @@ type FT struct {
 	entry   *State
 	axUsed  map[string]bool
 	finfo   []factInfo
+	axSkipped map[string]string
 }
 
 type site struct {
@@ -625,7 +626,7 @@ func (fr *frame) specEnv(st, old *State, results []Val) *Env {
 				env.vars["result"] = sv
 			}
 			if types.Identical(sig.Results().At(i).Type(), types.Universe.Lookup("error").Type()) {
-				if _, ok := env.vars["err"]; !ok || sig.Results().At(i).Name() == "" {
+				if _, ok := env.vars["err"]; !ok {
 					env.vars["err"] = sv
 				}
 			}
